@@ -27,7 +27,7 @@ PROPS = {
     "C07": dict(mod="checks.c07", quick_runs=64, thorough_s=1500, opts=dict(max_nodes=4, max_steps=8, pairs=2, generated_p=0.3), thorough_opts=dict(max_nodes=5, max_steps=12, pairs=6, generated_p=0.3)),
     "C08": dict(mod="checks.c08", quick_runs=32, thorough_s=1500, opts=dict(max_nodes=4, max_steps=14, variants=3), thorough_opts=dict(max_nodes=5, max_steps=20, variants=6)),
     "C10": dict(mod="checks.c10", quick_runs=24, thorough_s=1500, opts=dict(max_nodes=3, max_steps=9), thorough_opts=dict(max_nodes=4, max_steps=12)),
-    "C13": dict(mod="checks.c13", quick_runs=48, thorough_s=1500, opts=dict(max_nodes=4, variants=4, compiled_p=0.35), thorough_opts=dict(max_nodes=5, variants=8, compiled_p=0.6)),
+    "C13": dict(mod="checks.c13", quick_runs=48, thorough_s=1500, opts=dict(max_nodes=4, variants=4, compiled_p=0.5), thorough_opts=dict(max_nodes=5, variants=8, compiled_p=0.6)),
     "C16": dict(mod="checks.c16", quick_runs=96, thorough_s=1200, opts=dict(max_nodes=4), thorough_opts=dict(max_nodes=5)),
 }
 
